@@ -17,7 +17,10 @@ from __future__ import annotations
 import ast
 import contextlib
 import io
+import json
 import random
+import time
+import typing
 import re
 import types
 from typing import Any, Optional
@@ -72,6 +75,47 @@ def make_module(code: str, name: Optional[str] = None) -> types.ModuleType:
     return mod
 
 
+def clear_typing_caches() -> None:
+    """typing memoises X[...] with lru_caches keyed by ==: List[Union[A, B]] evaluated after
+    List[Union[B, A]] returns the EARLIER object.  eval(e) is therefore history dependent; the harness
+    pins the history to "fresh cache" before every evaluation of a case."""
+    for f in typing._cleanups:  # type: ignore[attr-defined]
+        f()
+
+
+def make_module_chunks(chunks: list[str], future: bool) -> types.ModuleType:
+    """Execute the chunks one after the other into one module, clearing typing's caches in between."""
+    import __future__
+
+    global _modcount
+    _modcount += 1
+    name = f"verif_c13_m{_modcount}"
+    mod = types.ModuleType(name)
+    mod.__dict__["__file__"] = name + ".py"
+    flags = __future__.annotations.compiler_flag if future else 0
+    for chunk in chunks:
+        clear_typing_caches()
+        exec(compile(chunk, name + ".py", "exec", flags=flags, dont_inherit=True), mod.__dict__)
+    return mod
+
+
+def check_module(src: str, module: types.ModuleType, **kw: Any):
+    """pyz.check_source with a visitor that clears typing's caches before every function definition
+    (the visitor executes the subscripts of an annotation, see clear_typing_caches)."""
+    from pyanalyze.name_check_visitor import NameCheckVisitor
+
+    class CacheClearingVisitor(NameCheckVisitor):
+        def visit_FunctionDef(self, node):  # type: ignore[override]
+            clear_typing_caches()
+            return super().visit_FunctionDef(node)
+
+    tree = ast.parse(src)
+    with contextlib.redirect_stderr(io.StringIO()):
+        v = CacheClearingVisitor(module.__name__ + ".py", src, tree, module=module, checker=pyz.get_checker(), **kw)
+        fails = v.check()
+    return fails, v, tree
+
+
 def base_module():
     global _base_module
     if _base_module is None:
@@ -82,11 +126,12 @@ def base_module():
 # --------------------------------------------------------------------------- part A: annotations
 
 
-def _check_module(src: str):
+def _check_module(chunks: list[str], future: bool):
     """Check one realised module with the real visitor; returns (module, {funcname: reveal value term},
-    {funcname: True if an internal_error was reported inside it})."""
-    mod = make_module(src)
-    fails, _v, tree = pyz.check_source(src, module=mod, annotate=True, want_visitor=True)
+    {funcname: exception class if an internal_error was reported inside it})."""
+    src = "".join(chunks)
+    mod = make_module_chunks(chunks, future)
+    fails, _v, tree = check_module(src, mod, annotate=True)
     revealed: dict[str, dict] = {}
     spans: list[tuple[int, int, str]] = []
     for node in tree.body:
@@ -110,12 +155,12 @@ def _check_module(src: str):
 
 def _module_routes(srcs: dict[int, str], future: bool) -> tuple[dict[int, dict], dict[int, dict]]:
     """ast route and signature route for the given {index: annotation source} in one checked module."""
-    body = (FUTURE if future else "") + PRELUDE
+    chunks = [(FUTURE if future else "") + PRELUDE]
     for i, s in srcs.items():
-        body += f"def f_{i}(x: {s}) -> None:\n    reveal_type(x)\n"
+        chunks.append(f"def f_{i}(x: {s}) -> None:\n    reveal_type(x)\n")
     checker = pyz.get_checker()
     try:
-        mod, revealed, crashed = _check_module(body)
+        mod, revealed, crashed = _check_module(chunks, future)
     except Exception as exc:  # the whole check died: isolate the culprit
         if len(srcs) == 1:
             (i,) = srcs
@@ -138,6 +183,7 @@ def _module_routes(srcs: dict[int, str], future: bool) -> tuple[dict[int, dict],
         else:
             raise core.MachineryError(f"no reveal_type result for {name}: {srcs[i]}")
         try:
+            clear_typing_caches()
             with contextlib.redirect_stderr(io.StringIO()):
                 sig = checker.arg_spec_cache.get_argspec(getattr(mod, name))
             sigv[i] = describe_value(sig.parameters["x"].annotation)
@@ -160,6 +206,7 @@ def observe_annotations(arg: tuple[int, list[dict]]) -> list[dict]:
         if parse(src) != e:
             raise core.MachineryError(f"codec round trip failed for {src}: {e}")
         o: dict[str, Any] = {"tid": base + i, "e": e, "src": src}
+        clear_typing_caches()
         try:
             obj = eval(src, g)
         except Exception:
@@ -206,10 +253,13 @@ def _is_nontrivial_expr(e: dict) -> bool:
 
 
 def judge_annotations(check: core.Check, cases: list[dict], label: str) -> dict[str, int]:
-    parts = core.pmap(observe_annotations, _batches(cases, 150), chunk=1)
+    t0 = time.time()
+    parts = core.pmap(observe_annotations, _batches(cases, 100), chunk=1)
     obs = _flatten(parts)
+    t1 = time.time()
     stripped = [{k: v for k, v in o.items() if k != "src"} for o in obs]
-    verdicts, stats = core.adjudicate("AnnotationsTrace", "AnnotationsTrace.cfg", stripped, batch=4000, parallel=8, timeout=3000)
+    verdicts, stats = core.adjudicate("AnnotationsTrace", "AnnotationsTrace.cfg", stripped, batch=1500, parallel=8, timeout=3000)
+    check.cov.setdefault("timing", []).append({"what": "annotations:" + label, "observe_s": round(t1 - t0, 1), "adjudicate_s": round(time.time() - t1, 1)})
     check.add_trace_stats(stats)
     check.evals(len(obs))
     counts = {"evaluable": 0, "not_evaluable": 0, "dev": 0}
@@ -236,9 +286,409 @@ def judge_annotations(check: core.Check, cases: list[dict], label: str) -> dict[
     return counts
 
 
+
+# --------------------------------------------------------------------------- part B: def headers
+
+_GOOD_ARG = {"noann": "1", "int": "1", "str": '"s"', "A": "A()", "Optional[int]": "None", "list[int]": "[1]", "T": "1", "None": "None"}
+_BAD_ARG = 'b"x"'
+
+
+def _ann_src(ann: dict) -> Optional[str]:
+    return None if ann["k"] == "noann" else render(ann)
+
+
+def _ann_key(ann: dict) -> str:
+    """Key into _GOOD_ARG: the annotation's source with quotes removed."""
+    if ann["k"] == "noann":
+        return "noann"
+    return render(ann).strip("\"'")
+
+
+def render_header(h: dict) -> str:
+    """`(params) -> ret` for the header term."""
+    parts: list[str] = []
+    params = h["params"]
+    kinds = [p["kind"] for p in params]
+    star_done = "VAR_POSITIONAL" in kinds
+    for i, p in enumerate(params):
+        kind = p["kind"]
+        if kind == "KEYWORD_ONLY" and not star_done:
+            parts.append("*")
+            star_done = True
+        text = {"VAR_POSITIONAL": "*", "VAR_KEYWORD": "**"}.get(kind, "") + p["name"]
+        a = _ann_src(p["ann"])
+        if a is not None:
+            text += ": " + a
+        if p["dflt"] != "none":
+            d = {"int:1": "1", "None": "None", "...": "..."}[p["dflt"]]
+            text += (" = " if a is not None else "=") + d
+        parts.append(text)
+        if kind == "POSITIONAL_ONLY" and (i + 1 == len(params) or kinds[i + 1] != "POSITIONAL_ONLY"):
+            parts.append("/")
+    r = _ann_src(h["ret"])
+    return "(" + ", ".join(parts) + ")" + (f" -> {r}" if r is not None else "")
+
+
+def render_call(h: dict, call: dict) -> str:
+    """Argument list of one call of the family: positional slots get a value fitting the parameter they
+    land on, keywords one fitting the named parameter; `bad` makes the first argument a bytes object."""
+    params = h["params"]
+    positional = [p for p in params if p["kind"] in ("POSITIONAL_ONLY", "POSITIONAL_OR_KEYWORD")]
+    vararg = next((p for p in params if p["kind"] == "VAR_POSITIONAL"), None)
+    by_name = {p["name"]: p for p in params}
+    args: list[str] = []
+    for j in range(call["npos"]):
+        p = positional[j] if j < len(positional) else vararg
+        args.append(_GOOD_ARG[_ann_key(p["ann"])] if p is not None else "1")
+    for name in sorted(call["kws"]):
+        p = by_name.get(name)
+        args.append(f"{name}=" + (_GOOD_ARG[_ann_key(p["ann"])] if p is not None else "1"))
+    if call["bad"] and args:
+        first = args[0]
+        args[0] = (first.split("=")[0] + "=" + _BAD_ARG) if "=" in first and not first.startswith(('"', "[")) else _BAD_ARG
+    return ", ".join(args)
+
+
+def _describe_inspect(f: Any) -> list[list[str]]:
+    import inspect
+
+    out = []
+    for p in inspect.signature(f).parameters.values():
+        out.append([p.name, p.kind.name, "nodefault" if p.default is inspect.Parameter.empty else "default"])
+    return out
+
+
+def _context_results(src: str, mod: types.ModuleType, wanted: dict[int, tuple[int, int]]):
+    """Check `src`; wanted maps line number -> (header index, call index) of a `reveal_type(<call>)` statement.
+    Returns {(hi, ci): {"codes": [...], "ret": value term}} and the tree."""
+    fails, _v, tree = check_module(src, mod, annotate=True)
+    codes: dict[int, set[str]] = {}
+    for f in fails:
+        code = getattr(f.get("code"), "name", None)
+        if code in ("reveal_type", None):
+            continue
+        codes.setdefault(f.get("lineno") or 0, set()).add(code)
+    out: dict[tuple[int, int], dict] = {}
+    for node in ast.walk(tree):
+        if isinstance(node, ast.Expr) and isinstance(node.value, ast.Call) and getattr(node.value.func, "id", None) == "reveal_type":
+            key = wanted.get(node.lineno)
+            if key is None:
+                continue
+            inner = node.value.args[0]
+            iv = getattr(inner, "inferred_value", None)
+            out[key] = {
+                "codes": sorted(codes.get(node.lineno, ())),
+                "ret": describe_value(iv) if iv is not None else V("Other", "no-inferred-value"),
+            }
+    return out, tree
+
+
+class _Src:
+    """Source text under construction, remembering the line number of every statement appended."""
+
+    def __init__(self, first: str) -> None:
+        self.chunks = [first]
+        self.line = first.count("\n") + 1
+        self.cur = ""
+
+    def add(self, text: str) -> int:
+        at = self.line
+        self.cur += text
+        self.line += text.count("\n")
+        return at
+
+    def end_chunk(self) -> None:
+        if self.cur:
+            self.chunks.append(self.cur)
+            self.cur = ""
+
+    def text(self) -> str:
+        return "".join(self.chunks)
+
+
+def observe_headers(arg: tuple[int, list[dict]]) -> list[dict]:
+    """Realise a batch of {h, calls} cases as a defining module + an importing module and record the
+    def-derived signature, the runtime signature, CPython's inspect.signature and every call's judgement
+    in the three contexts."""
+    import sys
+
+    base, cases = arg
+    obs: list[dict] = []
+    checker = pyz.get_checker()
+    # one defining module per value of `future`
+    for future in (False, True):
+        group = [(i, c) for i, c in enumerate(cases) if c["h"]["future"] == future]
+        if not group:
+            continue
+        d = _Src((FUTURE if future else "") + PRELUDE)
+        want_d: dict[int, tuple] = {}
+        sig_line: dict[int, int] = {}
+        for i, c in group:
+            h = c["h"]
+            kw = "async def" if h["isasync"] else "def"
+            hdr = render_header(h)
+            d.add(f"{kw} h_{i}{hdr}: ...\n")
+            d.add(f"def outer_{i}() -> None:\n")
+            d.add(f"    {kw} g_{i}{hdr}: ...\n")
+            sig_line[d.add(f"    reveal_type(g_{i})\n")] = i
+            for ci, call in enumerate(c["calls"]):
+                want_d[d.add(f"    reveal_type(g_{i}({render_call(h, call)}))\n")] = ("nested", i, ci)
+            d.add(f"def caller_{i}() -> None:\n")      # not executed when the module is imported
+            for ci, call in enumerate(c["calls"]):
+                want_d[d.add(f"    reveal_type(h_{i}({render_call(h, call)}))\n")] = ("defmod", i, ci)
+            d.end_chunk()
+        dsrc = d.text()
+        dmod = make_module_chunks(d.chunks, future)
+        sys.modules[dmod.__name__] = dmod
+        try:
+            res_d, dtree = _context_results(dsrc, dmod, want_d)
+            sigdef: dict[int, dict] = {}
+            for node in ast.walk(dtree):
+                if isinstance(node, ast.Expr) and isinstance(node.value, ast.Call) and node.lineno in sig_line:
+                    iv = getattr(node.value.args[0], "inferred_value", None)
+                    sig = getattr(iv, "signature", None)
+                    sigdef[sig_line[node.lineno]] = describe_signature(sig) if sig is not None else describe_value(iv)
+            # the importing module
+            names = ", ".join(["A"] + [f"h_{i}" for i, _ in group])
+            m = _Src(f"from typing_extensions import reveal_type\nfrom {dmod.__name__} import {names}\n")
+            want_i: dict[int, tuple] = {}
+            for i, c in group:
+                m.add(f"def caller_{i}() -> None:\n")
+                for ci, call in enumerate(c["calls"]):
+                    want_i[m.add(f"    reveal_type(h_{i}({render_call(c['h'], call)}))\n")] = ("importer", i, ci)
+            m.end_chunk()
+            imod = make_module_chunks([m.text()], False)
+            res_i, _ = _context_results(m.text(), imod, want_i)
+        finally:
+            sys.modules.pop(dmod.__name__, None)
+        for i, c in group:
+            f = getattr(dmod, f"h_{i}")
+            try:
+                with contextlib.redirect_stderr(io.StringIO()):
+                    sigrt = describe_signature(checker.arg_spec_cache.get_argspec(f))
+            except Exception as exc:
+                sigrt = raised(exc)
+            calls = []
+            for ci, call in enumerate(c["calls"]):
+                try:
+                    calls.append({**call, "src": render_call(c["h"], call), "nested": res_d[("nested", i, ci)],
+                                  "defmod": res_d[("defmod", i, ci)], "importer": res_i[("importer", i, ci)]})
+                except KeyError as exc:
+                    raise core.MachineryError(f"missing call result {exc} for header {render_header(c['h'])}") from exc
+            obs.append({"tid": base + i, "h": c["h"], "src": render_header(c["h"]), "inspect": _describe_inspect(f),
+                        "sigdef": sigdef.get(i, V("Other", "no-signature")), "sigrt": sigrt, "calls": calls})
+    obs.sort(key=lambda o: o["tid"])
+    return obs
+
+
+def _strip_header_obs(o: dict) -> dict:
+    o = {k: v for k, v in o.items() if k != "src"}
+    o["calls"] = [{k: v for k, v in c.items() if k != "src"} for c in o["calls"]]
+    return o
+
+
+def judge_headers(check: core.Check, cases: list[dict], label: str, cfg: str = "DefHeadersTrace.cfg") -> dict[str, int]:
+    t0 = time.time()
+    parts = core.pmap(observe_headers, _batches(cases, 10), chunk=1)
+    obs = _flatten(parts)
+    t1 = time.time()
+    verdicts, stats = core.adjudicate("DefHeadersTrace", cfg, [_strip_header_obs(o) for o in obs],
+                                      batch=100, parallel=8, timeout=3000)
+    check.cov.setdefault("timing", []).append({"what": "headers:" + label, "observe_s": round(t1 - t0, 1), "adjudicate_s": round(time.time() - t1, 1)})
+    check.add_trace_stats(stats)
+    counts = {"headers": len(obs), "calls": 0, "calls_all_accept": 0, "calls_all_reject": 0, "dev": 0}
+    for o in obs:
+        check.evals(1 + len(o["calls"]))
+        counts["calls"] += len(o["calls"])
+        for c in o["calls"]:
+            codes = [c[k]["codes"] for k in ("nested", "defmod", "importer")]
+            if all(not x for x in codes):
+                counts["calls_all_accept"] += 1
+            elif all(x for x in codes):
+                counts["calls_all_reject"] += 1
+        if o["h"]["params"]:
+            check.nontrivial(o["src"] + ("|future" if o["h"]["future"] else "") + ("|async" if o["h"]["isasync"] else ""))
+        seen: set[str] = set()
+        for v in verdicts.get(o["tid"], []):
+            if v in seen:
+                continue
+            seen.add(v)
+            payload = {"kind": "header", "h": o["h"], "src": o["src"], "calls": [{k: c[k] for k in ("npos", "kws", "bad")} for c in o["calls"]],
+                       "observed": {"inspect": o["inspect"], "sigdef": o["sigdef"], "sigrt": o["sigrt"]}, "source": label}
+            if v.startswith("oracle:"):
+                raise core.MachineryError(f"{v} on header {o['src']}: real inspect.signature {o['inspect']}")
+            if v.startswith("viol:"):
+                clause, _, k = v[5:].partition("#")
+                if k:
+                    payload["call"] = o["calls"][int(k) - 1]
+                check.violation(core.canon({"h": o["h"], "clause": v[5:]}), clause, payload)
+            elif v.startswith("dev:"):
+                counts["dev"] += 1
+                check.violation(v[4:], v[4:], payload)
+            elif v.startswith("drift:"):
+                check.drift({"verdict": v, "src": o["src"], "observed": o.get(v[6:])})
+    for o in obs[:: max(1, len(obs) // 2)][:2]:
+        s = dict(o)
+        s["calls"] = s["calls"][:4]
+        check.sample({"source": label, **s})
+    return counts
+
+
+def _sensitivity(module: str, cfg: str, inv: str) -> None:
+    r = core.run_tlc(module, cfg, timeout=900, workers=4)
+    if r.violated != inv:
+        raise core.MachineryError(f"sensitivity self-test failed: {module}/{cfg} should violate {inv}, got {r.violated or r.error}")
+
+
+def _uniq(cases: list) -> list:
+    return list({core.canon(c): c for c in cases}.values())
+
+
 def run(check: core.Check) -> None:
-    raise NotImplementedError
+    quick = check.tier == "quick"
+    rnd = random.Random(check.seed)
+    check.assumptions += [
+        "TLC and the TLA+ definitions of Annotations.tla / DefHeaders.tla; RefSame / RefSameSig define 'the same type / "
+        "parameters up to representation' (union = set of alternatives, Annotated distributes over unions, origin of an "
+        "Any is notation except Any[error], unannotated parameters are 'undeclared' in both views)",
+        "PyEval (CPython's typing normalisation) and RefInspect (inspect.signature) are models validated against real "
+        "CPython on every observation (mismatch = machinery error)",
+        "typing's lru caches are cleared before every evaluation of a case: eval(e) is otherwise history dependent "
+        "(ClassVar[Union[A, B]] returns an earlier ClassVar[Union[B, A]])",
+        "realised modules are compiled with dont_inherit=True (not PEP 563 unless the case says so); the vocabulary is the "
+        "prelude of harness/drivers/c13.py (A, B(A), NT, TD, P, T, TB, TC and the typing names)",
+        "return types of calls are compared only when the header declares a return type (an undeclared return is inferred "
+        "from the body in the defining module, which an importer cannot do)",
+    ]
+    # ---------------- part A: annotations
+    if quick:
+        res = core.require_ok(core.run_tlc("AnnotationsEmit", "Annotations.quick.cfg", coverage=True, timeout=1200), "Annotations exhaustive")
+        check.add_tlc("exhaustive+emit:Annotations.quick.cfg", res)
+        cases = core.emitted_json(res)
+        limit = 4500
+    else:
+        res = core.require_ok(core.run_tlc("AnnotationsEmit", "Annotations.thorough.cfg", coverage=True, timeout=3000), "Annotations exhaustive")
+        check.add_tlc("exhaustive+emit:Annotations.thorough.cfg", res)
+        cases = core.emitted_json(res)
+        limit = 45000
+    core.require_coverage(res, ["PushLeaf", "ApplyUnary", "ApplyBinary", "ApplyTop", "Finish"], "Annotations")
+    if not cases:
+        raise core.MachineryError("TLC emitted no annotation expressions")
+    _sensitivity("Annotations", "Annotations.strict.cfg", "AnnotationRoutesAgreeStrict")
+    _sensitivity("Annotations", "Annotations.bug.cfg", "AnnotationRoutesAgree")
+    check.cov["model_cases_annotations"] = len(cases)
+    exhaustive_a = len(cases) <= limit
+    if not exhaustive_a:
+        # everything up to 3 forms is always replayed in the thorough tier; above that a seeded sample
+        small = [c for c in cases if _size(c) <= (2 if quick else 3)]
+        rest = [c for c in cases if _size(c) > (2 if quick else 3)]
+        cases = small + rnd.sample(rest, max(0, min(len(rest), limit - len(small))))
+    ca = judge_annotations(check, cases, "tlc-exhaustive")
+    num = 150 if quick else 4000
+    sim = core.require_ok(
+        core.run_tlc("AnnotationsEmit", "Annotations.sim.cfg", workers=1, simulate=f"num={num}", depth=24, seed=check.seed + 13, timeout=1800),
+        "Annotations simulate",
+    )
+    check.add_tlc("simulate:Annotations.sim.cfg", sim)
+    sim_cases = _uniq(core.emitted_json(sim))
+    if len(sim_cases) < num // 4:
+        raise core.MachineryError(f"annotation simulation produced only {len(sim_cases)} distinct cases")
+    cs = judge_annotations(check, sim_cases, "tlc-simulate")
+    # ---------------- part B: def headers
+    hcfg = "DefHeaders.quick.cfg" if quick else "DefHeaders.thorough.cfg"
+    hres = core.require_ok(core.run_tlc("DefHeadersEmit", hcfg, coverage=True, timeout=3000), "DefHeaders exhaustive")
+    core.require_coverage(hres, ["AddParam", "FinishHeader"], "DefHeaders")
+    check.add_tlc(("exhaustive+emit:" if quick else "exhaustive:") + hcfg, hres)
+    _sensitivity("DefHeaders", "DefHeaders.strict.cfg", "HeaderViewsAgreeStrict")
+    _sensitivity("DefHeaders", "DefHeaders.bug.cfg", "HeaderViewsAgree")
+    if quick:
+        hcases = core.emitted_json(hres)
+    else:   # the thorough model check covers <= 3 parameters; the replay takes the richer 2-parameter vocabulary
+        hem = core.require_ok(core.run_tlc("DefHeadersEmit", "DefHeaders.emitt.cfg", timeout=3000), "DefHeaders emit")
+        check.add_tlc("emit:DefHeaders.emitt.cfg", hem)
+        hcases = core.emitted_json(hem)
+    if not hcases:
+        raise core.MachineryError("TLC emitted no def headers")
+    check.cov["model_cases_headers"] = len(hcases)
+    hlimit = 300 if quick else 2500
+    exhaustive_h = len(hcases) <= hlimit
+    if not exhaustive_h:
+        hcases = rnd.sample(hcases, hlimit)
+    ch = judge_headers(check, hcases, "tlc-exhaustive", "DefHeadersTrace.cfg" if quick else "DefHeadersTraceBig.cfg")
+    hnum = 4 if quick else 150
+    hsim = core.require_ok(
+        core.run_tlc("DefHeadersEmit", "DefHeaders.sim.cfg", workers=1, simulate=f"num={hnum}", depth=8, seed=check.seed + 17, timeout=1800),
+        "DefHeaders simulate",
+    )
+    check.add_tlc("simulate:DefHeaders.sim.cfg", hsim)
+    hsim_cases = _uniq(core.emitted_json(hsim))
+    if len(hsim_cases) < hnum // 4:
+        raise core.MachineryError(f"header simulation produced only {len(hsim_cases)} distinct cases")
+    chs = judge_headers(check, hsim_cases, "tlc-simulate", "DefHeadersTraceBig.cfg")
+    check.cov["exhaustive"] = exhaustive_a and exhaustive_h
+    check.cov["replay"] = {
+        "annotations_exhaustive": ca, "annotations_simulated": cs, "headers_exhaustive": ch, "headers_simulated": chs,
+        "annotation_replay_is_exhaustive": exhaustive_a, "header_replay_is_exhaustive": exhaustive_h,
+    }
+    check.cov["sensitivity"] = (
+        "AnnotationRoutesAgreeStrict / HeaderViewsAgreeStrict are violated on the model (the named deviations are real); "
+        "with BugOptionalDropsNone (string route forgets None in Optional[X]) and BugRuntimeIgnoresKwDefaults the ordinary "
+        "invariants are violated"
+    )
+    check.cov["rule"] = (
+        "annotation cases = expression trees TLC builds bottom-up from the leaf/unary/binary forms of Annotations.tla up to "
+        "MaxNodes forms (3 quick, 4 thorough; simulation up to 7); each is pushed through eval + 6 real routes; non-trivial = "
+        "not a bare name (distinct by source text).  header cases = def headers of DefHeaders.tla (<=2 parameters emitted, "
+        "<=3 model-checked, simulation <=4) x the call family Calls(h); non-trivial = at least one parameter"
+    )
+
+
+def _size(e: dict) -> int:
+    """Number of generator forms is not recoverable exactly from the term; the number of sub/or/str nodes + leaves
+    is a monotone stand-in used only to order the replay (small first)."""
+    if e["k"] in ("name", "const", "ellipsis", "empty"):
+        return 1 if e["k"] == "name" else 0
+    return (1 if e["k"] in ("sub", "or", "str") else 0) + sum(_size(a) for a in e["args"])
 
 
 def replay(check: core.Check, witness: dict) -> None:
-    raise NotImplementedError
+    if witness.get("kind") == "header":
+        big = any(c["npos"] > 2 or len(c["kws"]) > 1 for c in witness["calls"])
+        judge_headers(check, [{"h": witness["h"], "calls": witness["calls"]}], "replay",
+                      "DefHeadersTraceBig.cfg" if big else "DefHeadersTrace.cfg")
+    else:
+        judge_annotations(check, [witness["e"]], "replay")
+
+
+def selftest_binding(check: core.Check) -> None:
+    """Corrupt one recorded field of a real observation and confirm that TLC's verdict flags it."""
+    e = parse("Optional[int]")
+    (o,) = observe_annotations((0, [e]))
+    o = {k: v for k, v in o.items() if k != "src"}
+    good, _ = core.adjudicate("AnnotationsTrace", "AnnotationsTrace.cfg", [o])
+    bad = dict(o, str=V("Typed", "str"))
+    v1, _ = core.adjudicate("AnnotationsTrace", "AnnotationsTrace.cfg", [bad])
+    bad2 = dict(o, py={"k": "class", "id": "int", "args": []})
+    v2, _ = core.adjudicate("AnnotationsTrace", "AnnotationsTrace.cfg", [bad2])
+    h = {"params": [{"name": "a", "kind": "POSITIONAL_OR_KEYWORD", "ann": parse("int"), "dflt": "none"}],
+         "ret": parse("int"), "isasync": False, "future": False}
+    calls = [{"npos": n, "kws": k, "bad": b} for n in (0, 1, 2) for k in ([], ["a"], ["zz"]) for b in (False, True)]
+    (ho,) = observe_headers((0, [{"h": h, "calls": calls}]))
+    ho = _strip_header_obs(ho)
+    hgood, _ = core.adjudicate("DefHeadersTrace", "DefHeadersTrace.cfg", [ho])
+    hbad = json.loads(json.dumps(ho))
+    hbad["sigrt"]["a"][0]["a"][0]["n"] = "KEYWORD_ONLY"
+    v3, _ = core.adjudicate("DefHeadersTrace", "DefHeadersTrace.cfg", [hbad])
+    hbad2 = json.loads(json.dumps(ho))
+    hbad2["calls"][0]["importer"]["codes"] = ["incompatible_call", "made_up"]
+    v4, _ = core.adjudicate("DefHeadersTrace", "DefHeadersTrace.cfg", [hbad2])
+    print("uncorrupted:", good, hgood)
+    print("str route corrupted     ->", v1)
+    print("CPython object corrupted->", v2)
+    print("runtime kind corrupted  ->", v3)
+    print("importer codes corrupted->", v4)
+    ok = (not good and not hgood and "viol:RoutesAgree" in v1.get(0, []) and "oracle:PyEval" in v2.get(0, [])
+          and "viol:HeaderViewsAgree" in v3.get(0, []) and any(x.startswith("viol:CallJudgedIdentically") for x in v4.get(0, [])))
+    if not ok:
+        raise core.MachineryError("binding self-test failed: a corrupted observation was not flagged")
+    print("binding self-test passed")
